@@ -157,6 +157,55 @@ func c05async(w *W, policy string, cap, k int, state string, layout bool, ci int
 	if fds := fdsInto(dir); len(fds) != 0 {
 		return fmt.Sprintf("descriptors still open after Stop: %v", fds), "fd-leak"
 	}
+	if ci%3 == 0 {
+		// second life of the very same logger object: Start again, accept a burst no larger than the buffer, Stop - the
+		// flush guarantee is per Stop call, whatever the object went through before
+		if err := fa.Start(); err != nil {
+			return "file appender restart: " + err.Error(), "start"
+		}
+		if err := l.Start(); err != nil {
+			return "async restart: " + err.Error(), "start"
+		}
+		g.Open.Store(true)
+		var second []string
+		for i := 0; i < k+1 && i < cap; i++ {
+			id := fmt.Sprintf("id-r%dx%d-%d", w.Spec.Shard, ci, i)
+			second = append(second, id)
+			if i%4 == 1 {
+				l.Write([]byte("raw " + id + "\n"))
+			} else {
+				appendEvent(l, log.ErrorLevel, id)
+			}
+		}
+		done, pv, dump := callWithWatchdog(30*time.Second, l.Stop)
+		if !done {
+			if blocked, gr := blockedInLibrary(dump, "watchdogMarker"); blocked {
+				return "second Stop of a restarted logger does not return; parked goroutine:\n" + trunc(gr, 1200), "stop-hangs"
+			}
+			return "watchdog fired but the second Stop is not parked in the library", "inconclusive"
+		}
+		if pv != nil {
+			return fmt.Sprintf("second Stop of a restarted logger panicked: %v", pv), "stop-panic"
+		}
+		b2, _ := os.ReadFile(filepath.Join(dir, fname))
+		fa.Stop()
+		for len(g.Entered) > 0 {
+			<-g.Entered
+		}
+		rec.take()
+		got2 := idsIn(b2)
+		for _, id := range second {
+			if got2[id] != 1 {
+				return fmt.Sprintf("restarted logger: %s was accepted before the second Stop but is in the target file %d times right after it returned (%d accepted in this life)", id, got2[id], len(second)), "not-flushed-second-life"
+			}
+		}
+		if l.GetDiscardCounter() != m.counter {
+			return fmt.Sprintf("restarted logger: discard counter %d, model %d", l.GetDiscardCounter(), m.counter), "counter"
+		}
+		if fds := fdsInto(dir); len(fds) != 0 {
+			return fmt.Sprintf("descriptors still open after the second Stop: %v", fds), "fd-leak"
+		}
+	}
 	_ = os.Remove(filepath.Join(dir, fname))
 	return "", ""
 }
